@@ -20,6 +20,13 @@ RULE = ("unit: scripted Uint32 draws (db.SetRandSourceForVerif) and sequences of
         "served in process by FBDNSDB; A, AAAA, ANY queries with max answer unset and 1..8 from clients in every location, NS and MX "
         "queries and referrals for the additional section (targets named by one record, and the same v4-only / v6-only / dual-stack host named by 2 and 3 MX records, two NS records sharing one glue host, a name that is its own MX target queried with MX and ANY): every response checked for subset / no repetition (records identified "
         "by address and TTL) / no weight 0 / size = min(max, positive-weight visible records) / NOERROR when the name exists. "
+        "conc (concurrent use of the shared generator, draws NOT scripted; runs first, while db.localRand is still the package's own "
+        "NewRand()): 16 goroutines x 800 (quick) / 40000 (thorough) direct Wrs.Add/ARecord selections on 4 fixed candidate sets and x 60 / 4000 "
+        "queries through FBDNSDB (cdb, rocksdb v1, v2 rotating) on 4 names - every DISTINCT outcome is judged with the draw-independent "
+        "clauses (declared, distinct, no weight 0, exactly min(max, positives)) and no selection may panic; plus 16 goroutines drawing "
+        "50000 / 200000 63-bit values each from one db.NewRand() (the package's lockedSource): no panic and at most 2 repeated values "
+        "(a sound generator repeats one value among 8e5 / 3.2e6 draws with probability 3.5e-8 / 5.6e-7, three with < 1e-20; no timing "
+        "assumption, but it needs GOMAXPROCS >= 2 to be able to see an unlocked generator). "
         "chi: 20000 draws of the real locked generator (one goroutine, four goroutines, through the handler), support only. "
         "non-trivial = distinct (max, candidate list) with at least 2 address candidates, or distinct e2e query with candidates")
 TRUSTED_BASE = [
@@ -31,6 +38,10 @@ TRUSTED_BASE = [
     "(9.1e-13; justified rounding error of the float computation: (2 + ln M) * 2^-53 < 25 * 2^-53 from the two roundings of the base and the "
     "rounding of the exponent, plus a few ulp assumed for math.Pow - more than 300 times smaller); closer pairs (e.g. draw 2^32-2 / weight 1 "
     "against draw 2^32-3 / weight 2: relative distance 2.7e-20, equal float64 keys) carry no claim",
+    "concurrency is not modelled: the conc class checks on the real locked generator that concurrent selections stay inside what "
+    "C11_bounded_sound proves for every key assignment (no panic, draw-independent clauses) and that lockedSource hands no 63-bit value "
+    "out twice; the generator-level draws use a db.NewRand() instance (same lockedSource code) because db.localRand itself is unexported, "
+    "the selection stress uses db.localRand as initialised by the package",
     "rand.Shuffle in Wrs.record is not modelled: served records are compared as sets",
     "C11_proportional_partial / C11_key_cdf_set_partial (Proofs/WrsReal.v, Coquelicot) depend on the standard library's real-number axioms "
     "(ALLOWED_AXIOMS); the reading of the integral as a probability assumes independent, continuous uniform draws, exact Pow, and that the "
@@ -66,7 +77,7 @@ def _ids(l):
 
 
 def to_coq(c):
-    kind = {"unit": "KUnit", "e2e": "KE2E", "chi": "KChi"}[c["kind"]]
+    kind = {"unit": "KUnit", "e2e": "KE2E", "chi": "KChi", "conc": "KConc"}[c["kind"]]
     cands = clist(["(mkCand %s %s %s %s %s)" % (cN(x["q"]), cN(x["u"]), cN(x["w"]), cN(x.get("rank", 0)), cbool(x.get("zero", True)))
                    for x in c.get("cands") or []])
     steps = clist(["(mkStep %s %s %s %s %s)" % (cbool(s["err"]), _pairs(s["v4"]), cN(s["c4"]), _pairs(s["v6"]), cN(s["c6"]))
@@ -83,11 +94,14 @@ def to_coq(c):
     msg = _pairs(c.get("msg") or [])
     targets = clist([cpair(cN(t["name"]), trip(t["cands"])) for t in c.get("targets") or []])
     extra = trip(c.get("extra") or [])
-    return "mk %s %s %s %s %s %s %s %s %s %s %s %s %s %s %s %s %s" % (
+    if c["kind"] == "conc":
+        qtype = c.get("qtype", 1)
+    return "mk %s %s %s %s %s %s %s %s %s %s %s %s %s %s %s %s %s %s %s" % (
         kind, cZ(c.get("max", 1)), cands, steps, _ids(c.get("out4") or []), _ids(c.get("out6") or []),
         cbool(c.get("weighted", False)), cbool(c.get("keys_agree", True)), cN(qtype), groups, cN(rcode),
         msg, targets, extra, _ids(c.get("msgids") or []),
-        _ids(c.get("chi_w") or []), _ids(c.get("chi_obs") or []))
+        _ids(c.get("chi_w") or []), _ids(c.get("chi_obs") or []),
+        cN(c.get("panics", 0)), cN(c.get("dups", 0)))
 
 
 def nontrivial(c):
@@ -100,6 +114,8 @@ def nontrivial(c):
         if any(g["cands"] for g in c.get("groups") or []):
             return ["e2e", c["driver"], c["qname"], c["qtype"], c["client"], c["max"]]
         return None
+    if c["kind"] == "conc":
+        return ["conc", c.get("conc_via"), c.get("qname"), c.get("conc_w"), c["max"]]
     return ["chi", c.get("chi_via"), c.get("chi_workers")]
 
 
